@@ -24,6 +24,27 @@ type fakeStore struct {
 	lastMint      *common.MintDistribution
 	lastConsensus *common.Snapshot
 	custodian     *common.CustodianUpdateRequest
+	txs           map[crypto.Hash]*common.VersionedTransaction // ReadTransaction
+	opsStore      storage.Store                                 // a real Badger store for AddNodeOperation (lazily opened)
+	openOps       func() storage.Store
+}
+
+func (f *fakeStore) ReadTransaction(hash crypto.Hash) (*common.VersionedTransaction, string, error) {
+	if tx := f.txs[hash]; tx != nil {
+		return tx, "", nil
+	}
+	return nil, "", nil
+}
+
+// no head round for any chain: chains built from this store have no state
+func (f *fakeStore) ReadRound(hash crypto.Hash) (*common.Round, error) { return nil, nil }
+
+// the node-operation lock is the real storage code, on a real Badger directory
+func (f *fakeStore) AddNodeOperation(tx *common.VersionedTransaction, timestamp, threshold uint64, finalized bool) error {
+	if f.opsStore == nil {
+		f.opsStore = f.openOps()
+	}
+	return f.opsStore.AddNodeOperation(tx, timestamp, threshold, finalized)
 }
 
 func (f *fakeStore) ListNodeWorks(cids []crypto.Hash, day uint32) (map[crypto.Hash][2]uint64, error) {
@@ -148,6 +169,16 @@ func sortedCNodes(hist []histEntry) []*kernel.CNode {
 		return cn[i].IdForNetwork.String() < cn[j].IdForNetwork.String()
 	})
 	return cn
+}
+
+// sortCNodes orders records exactly as kernel.LoadConsensusNodes does.
+func sortCNodes(cn []*kernel.CNode) {
+	sort.SliceStable(cn, func(i, j int) bool {
+		if cn[i].Timestamp != cn[j].Timestamp {
+			return cn[i].Timestamp < cn[j].Timestamp
+		}
+		return cn[i].IdForNetwork.String() < cn[j].IdForNetwork.String()
+	})
 }
 
 func newFakeStore() *fakeStore {
